@@ -1,4 +1,6 @@
 import HotstuffModel.Driver.Sexp
+import HotstuffModel.Driver.Node
+import HotstuffModel.Driver.Unit
 import HotstuffModel.Model.Committee
 /-
 Model driver: one request per line on stdin (an s-expression), one answer line on stdout.
@@ -7,12 +9,7 @@ The harness (Rust) sends the same inputs to the real code and diffs the answers.
 namespace HS.Driver
 open Sexp
 
-def parseCommittee (e : Sexp) : Committee :=
-  ⟨e.items.map (fun p => match p with
-    | .list [k, s] => (natD k, natD s)
-    | _ => (0, 0))⟩
-
-/-- Pure request handler for the stateless (E1) commands. -/
+/-- Pure request handler for the stateless quorum commands. -/
 def handlePure (e : Sexp) : Option Sexp :=
   match e with
   | .list [.atom "qt", n] =>
@@ -25,19 +22,39 @@ def handlePure (e : Sexp) : Option Sexp :=
       ofNats ((nats ks).map c.stake), ofNats ((nats ks).map c.stakeMempool)])
   | _ => none
 
-partial def loop (h : IO.FS.Stream) (out : IO.FS.Stream) : IO Unit := do
+structure DState where
+  node : Option NodeDriver := none
+  agg : Option AggDriver := none
+
+def dispatch (st : DState) (e : Sexp) : DState × Sexp :=
+  match handlePure e with
+  | some r => (st, r)
+  | none =>
+  match handleUnit e with
+  | some r => (st, r)
+  | none =>
+  match stepNode st.node e with
+  | some (n, r) => ({ st with node := n }, r)
+  | none =>
+  match stepAgg st.agg e with
+  | some (a, r) => ({ st with agg := a }, r)
+  | none => (st, .list [.atom "error", .atom "unknown-command"])
+
+partial def loop (h : IO.FS.Stream) (out : IO.FS.Stream) (st : DState) : IO Unit := do
   let line ← h.getLine
   if line.isEmpty then return ()
   match Sexp.parse line with
-  | none => out.putStrLn "(error parse)"
+  | none =>
+    out.putStrLn "(error parse)"
+    out.flush
+    loop h out st
   | some e =>
-    match handlePure e with
-    | some r => out.putStrLn (toString r)
-    | none => out.putStrLn "(error unknown-command)"
-  out.flush
-  loop h out
+    let (st', r) := dispatch st e
+    out.putStrLn (toString r)
+    out.flush
+    loop h out st'
 
 end HS.Driver
 
 def main : IO Unit := do
-  HS.Driver.loop (← IO.getStdin) (← IO.getStdout)
+  HS.Driver.loop (← IO.getStdin) (← IO.getStdout) {}
